@@ -17,6 +17,7 @@ type WriteSet struct {
 	Classes      map[string]bool
 	Allocs       map[*ssa.Alloc]bool
 	FreeVarWrite bool
+	FreeVars     map[int]bool // indices of captured variables written directly
 	Iters        []ssa.Value
 	Sites        map[string][]string // class -> positions (for reports)
 }
@@ -67,9 +68,13 @@ type addrRoot struct {
 	kind  string // alloc, heap, global, freevar, unknown
 	alloc *ssa.Alloc
 	class string
+	fv    *ssa.FreeVar
 }
 
 func (e *Effects) rootOf(addr ssa.Value, depth int) addrRoot {
+	if fv, ok := addr.(*ssa.FreeVar); ok {
+		return addrRoot{kind: "freevar", fv: fv}
+	}
 	if depth > 20 {
 		return addrRoot{kind: "unknown"}
 	}
@@ -160,6 +165,16 @@ func (e *Effects) scan(f *ssa.Function, only map[*ssa.BasicBlock]bool) *WriteSet
 					}
 				case "freevar":
 					ws.FreeVarWrite = true
+					if r.fv != nil {
+						if ws.FreeVars == nil {
+							ws.FreeVars = map[int]bool{}
+						}
+						for i, v := range f.FreeVars {
+							if v == r.fv {
+								ws.FreeVars[i] = true
+							}
+						}
+					}
 				default:
 					add("UNKNOWN", ins)
 				}
@@ -638,8 +653,32 @@ func (e *Effects) LoopWrites(f *ssa.Function, l *Loop) *WriteSet {
 				for gv := range e.ghostW[g] {
 					ws.Classes["g."+gv] = true
 				}
-				if t, ok := e.total[g]; ok && t.FreeVarWrite && g.Parent() == f {
-					ws.FreeVarWrite = true
+				_ = g
+			}
+		}
+	}
+	// closures of f that write captured variables: the captured cells are allocs of f
+	for _, b := range f.Blocks {
+		for _, ins := range b.Instrs {
+			mc, ok := ins.(*ssa.MakeClosure)
+			if !ok {
+				continue
+			}
+			g, ok := mc.Fn.(*ssa.Function)
+			if !ok {
+				continue
+			}
+			d := e.direct[g]
+			if d == nil {
+				continue
+			}
+			for idx := range d.FreeVars {
+				if idx < len(mc.Bindings) {
+					if al, ok := mc.Bindings[idx].(*ssa.Alloc); ok {
+						ws.Allocs[al] = true
+					} else {
+						ws.FreeVarWrite = true
+					}
 				}
 			}
 		}
